@@ -1,5 +1,6 @@
 import SurfModel.Proto
 import SurfModel.Generated.SixelLevel
+import SurfModel.Generated.SixelCache
 /-!
 # C12 — model of `SixelImageHandler::draw` (src/image.rs) and a reference sixel interpreter
 
@@ -207,10 +208,11 @@ def sortedOrder (q : QImg) : Nat → List Nat := fun b => bandColours q b
 /-! ### the cache of encoded images
 
 `imgs: LruCache<u64, Vec<u8>>` (unbounded, most recently used first here), `size` = sum of the cached
-lengths, `IMAGE_CACHE_SIZE` = 128 MiB.  `key` is `img.hash()`, `enc` what a fresh encoding of the image
+lengths, `IMAGE_CACHE_SIZE` = the regenerated `imageCacheSize`.  `key` is `img.hash()`, `enc` what a fresh encoding of the image
 would give at this moment (it depends on the iteration order of a new `HashMap`, so it is an argument). -/
 
-def imageCacheSize : Nat := 134217728
+/-- `IMAGE_CACHE_SIZE`, regenerated from the implementation on every run -/
+def imageCacheSize : Nat := SurfModel.Generated.SixelCache.imageCacheSize
 
 structure Handler where
   imgs : List (Nat × List UInt8)
